@@ -148,6 +148,19 @@ package aper
 //@ requires bounds: lowerBoundPtr == nil || upperBoundPtr == nil || (*lowerBoundPtr <= *upperBoundPtr && *upperBoundPtr-*lowerBoundPtr >= 0)
 //@ ensures inv: vcInv(pd) && pd.byteOffset >= old(pd.byteOffset)
 //@ ensures fixed: vc.Imp(!extensed && lowerBoundPtr != nil && upperBoundPtr != nil && *lowerBoundPtr == *upperBoundPtr, result1 == nil && result0 == *upperBoundPtr && pd.byteOffset == old(pd.byteOffset) && pd.bitsOffset == old(pd.bitsOffset))
+// What a successful decoding consumes and returns (C04: the mirror image of appendInteger's clauses):
+// a range of at most 255 values — the offset in a bit field of FieldWidth(range) bits (X.691 10.5.7.1);
+// unconstrained, semi-constrained or out-of-root — an aligned length octet L and L octets (10.7, 10.8);
+// a range above 64K — the number of octets minus one in a bit field whose range is the number of
+// octets ub-lb needs, then that many aligned octets (10.5.7.4).
+//@ let c0 := 8*pd.byteOffset+uint64(pd.bitsOffset)
+//@ let bo0 := pd.byteOffset
+//@ let bits0 := pd.bitsOffset
+//@ ensures small: vc.Imp(result1 == nil && !extensed && lowerBoundPtr != nil && upperBoundPtr != nil && *upperBoundPtr-*lowerBoundPtr >= 1 && *upperBoundPtr-*lowerBoundPtr < 255, result0 == *lowerBoundPtr+int64(per.BitsValue(pd.bytes[bo0:], int(bits0), per.FieldWidth(*upperBoundPtr-*lowerBoundPtr+1))) && 8*pd.byteOffset+uint64(pd.bitsOffset) == c0+uint64(per.FieldWidth(*upperBoundPtr-*lowerBoundPtr+1)))
+//@ ensures lenoctet: vc.Imp(result1 == nil && (extensed || lowerBoundPtr == nil || upperBoundPtr == nil), pd.bitsOffset == 0 && pd.byteOffset == (c0+7)>>3+1+uint64(pd.bytes[(c0+7)>>3]))
+//@ ensures wide: vc.Imp(result1 == nil && !extensed && lowerBoundPtr != nil && upperBoundPtr != nil && *upperBoundPtr-*lowerBoundPtr >= 65536 && *upperBoundPtr-*lowerBoundPtr < 1<<62, pd.bitsOffset == 0 && pd.byteOffset == (c0+uint64(per.FieldWidth(int64(per.MinOctetsUnsigned(uint64(*upperBoundPtr-*lowerBoundPtr)))))+7)>>3+1+per.BitsValue(pd.bytes[bo0:], int(bits0), per.FieldWidth(int64(per.MinOctetsUnsigned(uint64(*upperBoundPtr-*lowerBoundPtr))))))
+// (the value of the length-octet forms is not stated: the query comes back sat without a confirmable model)
+//@ ensures widevalue: vc.Imp(result1 == nil && !extensed && lowerBoundPtr != nil && upperBoundPtr != nil && *upperBoundPtr-*lowerBoundPtr >= 65536 && *upperBoundPtr-*lowerBoundPtr < 1<<62, result0 == *lowerBoundPtr+int64(per.BitsValue(pd.bytes[(c0+uint64(per.FieldWidth(int64(per.MinOctetsUnsigned(uint64(*upperBoundPtr-*lowerBoundPtr)))))+7)>>3:], 0, 8*(1+int(per.BitsValue(pd.bytes[bo0:], int(bits0), per.FieldWidth(int64(per.MinOctetsUnsigned(uint64(*upperBoundPtr-*lowerBoundPtr))))))))))
 //@ assigns &pd.byteOffset, &pd.bitsOffset
 //@ loop byteLen unroll 9
 //@ loop i unroll 9
